@@ -65,7 +65,6 @@ from btclib.exceptions import BTClibException, IncompleteMessageError
 from btclib.p2p import Message
 from btclib.script import sig_hash
 from btclib.script.engine import verify_input
-from btclib.tx.tx import Tx
 from btclib.tx.tx_out import TxOut
 
 from btcsim.core.ctx import Ctx, RunAborted
@@ -88,6 +87,8 @@ PENDING: set[str] = {
     "Psbt.serialize/version-zero",  # finding B': an explicit PSBT_GLOBAL_VERSION = 0 is parsed and not written back
     "PsbtIn.serialize/empty-value",  # finding B'': a known-type pair with an empty value is parsed and not written back
     "PsbtOut.serialize/empty-value",
+    "PsbtOut.serialize/keydata-06",  # finding D: PSBT_OUT_TAP_TREE written with key data is parsed, the key data is not written back
+    "Psbt.serialize/keydata-fb",  # finding D': a second PSBT_GLOBAL_VERSION-typed key (with key data) is parsed and not written back
     "var_int.parse/trailing-octets",  # finding C: octets after a whole compact size are ignored
     "var_bytes.parse/trailing-octets",
 }
@@ -161,6 +162,12 @@ def _sha256d(b: bytes) -> bytes:
     return hashlib.sha256(hashlib.sha256(b).digest()).digest()
 
 
+def _diff(a: bytes, b: bytes) -> str:
+    at = next((i for i, (x, y) in enumerate(zip(a, b)) if x != y), min(len(a), len(b)))
+    lo = max(0, at - 24)
+    return f"first difference at {at}: ..{a[lo:at + 24].hex()} vs ..{b[lo:at + 24].hex()}"
+
+
 def _tag(data: bytes) -> str:
     return f"{len(data)}:{hashlib.sha256(data).hexdigest()[:12]}"
 
@@ -180,6 +187,7 @@ def _accept(ctx: Ctx, j: Judge, codec: go.Codec, data: bytes, cv: bool, fault: s
         ok, obj = j.call(site, lambda: codec.parse(stream, cv))
         consumed = (data + tail)[:stream.tell()]
     ctx.state(f"{codec.name}:{fault}:{'accepted' if ok else 'refused'}:{'octets' if tail is None else 'stream'}")
+    ctx.probe(("accepted:" if ok else "refused:") + fault)
     if not ok:
         return None
     ok, ser = j.call(f"{codec.name}.serialize/{fault}", lambda: codec.ser(obj, cv))
@@ -194,7 +202,7 @@ def _accept(ctx: Ctx, j: Judge, codec: go.Codec, data: bytes, cv: bool, fault: s
         for prop in (P5, P19):
             j.check(
                 prop, "refused-or-canonical", ser == consumed,
-                lambda: f"cv={cv}: accepted {consumed.hex()[:160]} ({len(consumed)} octets), serializes to {ser.hex()[:160]} ({len(ser)})",
+                lambda: f"cv={cv}: accepted {len(consumed)} octets, serializes to {len(ser)}; {_diff(consumed, ser)}",
                 f"{codec.name}.parse/trailing-octets" if extended else site,
             )
     if tail is not None and (data + tail)[:len(ser)] == ser:
@@ -202,10 +210,16 @@ def _accept(ctx: Ctx, j: Judge, codec: go.Codec, data: bytes, cv: bool, fault: s
     return obj
 
 
+_KNOWN_TYPES = {"Psbt": {*range(0x0A), 0xFB}, "PsbtIn": {*range(0x09), *range(0x0A, 0x19), *range(0x1A, 0x1F)}, "PsbtOut": set(range(0x0B))}
+_SINGLETON_TYPES = {
+    "Psbt": {0x00, 0x02, 0x03, 0x04, 0x05, 0x06, 0x09, 0xFB},
+    "PsbtIn": {0x00, 0x01, 0x03, 0x04, 0x05, 0x07, 0x08, 0x0E, 0x0F, 0x10, 0x11, 0x12, 0x13, 0x17, 0x18},
+    "PsbtOut": {0x00, 0x01, 0x03, 0x04, 0x05, 0x06, 0x09, 0x0A},
+}
 _DROPPED_ONCE_FINALIZED = {0x02, 0x03, 0x04, 0x05, 0x06, 0x0A, 0x0B, 0x0C, 0x0D, 0x13, 0x14, 0x15, 0x16, 0x17, 0x18, 0x1A, 0x1B, 0x1C}
 
 
-def _loss_class(kind: str, key: bytes, value: bytes, finalized: bool) -> str | None:
+def _loss_class(kind: str, key: bytes, value: bytes, finalized: bool, keys: list[bytes]) -> str | None:
     """Input class of a key-value pair that did not survive parse -> serialize."""
     if kind == "PsbtIn" and finalized and key[0] in _DROPPED_ONCE_FINALIZED:
         return None  # documented: what a finalizer consumed is not carried beside what it produced
@@ -215,7 +229,9 @@ def _loss_class(kind: str, key: bytes, value: bytes, finalized: bool) -> str | N
         return "version-zero"
     if not value or (kind == "PsbtIn" and key == b"\x08" and value == b"\x00"):
         return "empty-value"
-    return f"type-{key[0]:02x}"
+    if key[0] in _SINGLETON_TYPES[kind] and any(len(k) > 1 and k[0] == key[0] for k in keys):
+        return f"keydata-{key[0]:02x}"  # a type that carries no key data, written with some (it may shadow the plain one)
+    return f"type-{key[0]:02x}" if key[0] in _KNOWN_TYPES[kind] else "unknown-pair"
 
 
 def _psbt_fixed_point(ctx: Ctx, j: Judge, codec: go.Codec, data: bytes, obj: Any, ser: bytes, cv: bool, fault: str) -> None:
@@ -239,7 +255,7 @@ def _psbt_fixed_point(ctx: Ctx, j: Judge, codec: go.Codec, data: bytes, obj: Any
         for p in m_in:
             if (p.key, p.value) in kept:
                 continue
-            cls = _loss_class(kind, p.key, p.value, finalized)
+            cls = _loss_class(kind, p.key, p.value, finalized, [q.key for q in m_in])
             if cls is None:
                 ctx.probe("psbt-finalized-drop")
                 continue
@@ -380,7 +396,7 @@ def _store(ctx: Ctx, j: Judge) -> None:
         b = pg.build_part(ch, kind) if kind in pg.PARTS else go.build(ch, pool, kind)
         if len(b.raw) <= 100_000:
             built.append(b)
-            ctx.log("object", kind, _tag(b.raw), ",".join(b.tags))
+            ctx.log("write:" + kind, _tag(b.raw), ",".join(b.tags), actor="writer")
     disk = SimDisk(ctx)
     image = b"".join(_record(b) for b in built)
     disk.write("store", image)
@@ -456,7 +472,7 @@ def _store(ctx: Ctx, j: Judge) -> None:
             # a legacy transaction written in the segwit form: marker, flag, one empty stack per input
             mutants.append(("superfluous-witness", b.raw[:4] + b"\x00\x01" + b.raw[4:-4] + b"\x00" * len(b.obj.vin) + b.raw[-4:]))
         if b.codec.psbt:
-            mutants += _psbt_falsy(ch, b, obj)
+            mutants += _psbt_edits(ch, b, obj)
         for fault in sorted({f for f, _ in mutants}):
             n = sum(1 for f, _ in mutants if f == fault)
             ctx.fault(fault, b.name, f"n={n}")
@@ -477,23 +493,33 @@ def _store(ctx: Ctx, j: Judge) -> None:
                 j.call(f"dsa.Sig.parse-lax/{fault}", lambda data=data: dsa.Sig.parse(io.BytesIO(data + tail), strict=False))
 
 
-_FALSY_IN = ((b"\x03", bytes(4)), (b"\x04", b""), (b"\x05", b""), (b"\x07", b""), (b"\x08", b"\x00"), (b"\x13", b""), (b"\x17", b""), (b"\x18", b""))
-_FALSY_OUT = ((b"\x00", b""), (b"\x01", b""), (b"\x05", b""), (b"\x06", b""))
+_FALSY = {
+    "Psbt": ((b"\xfb", bytes(4)),),
+    "PsbtIn": ((b"\x03", bytes(4)), (b"\x04", b""), (b"\x05", b""), (b"\x07", b""), (b"\x08", b"\x00"), (b"\x13", b""), (b"\x17", b""), (b"\x18", b"")),
+    "PsbtOut": ((b"\x00", b""), (b"\x01", b""), (b"\x05", b""), (b"\x06", b"")),
+}
+# a type that carries no key data, written with some
+_KEYDATA = {
+    "Psbt": ((b"\xfb\xaa", (2).to_bytes(4, "little")), (b"\x02\xaa", (2).to_bytes(4, "little"))),
+    "PsbtIn": ((b"\x03\xaa", (1).to_bytes(4, "little")), (b"\x04\xaa", b"\x51"), (b"\x17\xaa", bytes(32))),
+    "PsbtOut": ((b"\x06\xaa", b"\x00\xc0\x01\x51"), (b"\x00\xaa", b"\x51"), (b"\x05\xaa", bytes(32))),
+}
 
 
-def _psbt_falsy(ch: Any, b: go.Built, obj: Any) -> list[tuple[str, bytes]]:
-    """Writer-aware edit: one more pair, of a known type, whose value is that type's zero."""
+def _psbt_edits(ch: Any, b: go.Built, obj: Any) -> list[tuple[str, bytes]]:
+    """Writer-aware edits: one more pair of a known type -- whose value is that
+    type's zero (falsy-pair), or whose key has data its type does not carry (keydata-pair)."""
     whole = b.name == "Psbt"
     maps = [[(p.key, p.value) for p in m] for m in psbtmap.split_maps(b.raw, len(psbtmap.MAGIC) if whole else 0)]
     out: list[tuple[str, bytes]] = []
-    for _ in range(3):
-        i = ch.draw(len(maps), "falsy.map")
+    for fault, table in (("falsy-pair", _FALSY), ("keydata-pair", _KEYDATA)) * 2:
+        i = ch.draw(len(maps), "edit.map")
         kind = b.name if not whole else "Psbt" if i == 0 else "PsbtIn" if i <= len(obj.inputs) else "PsbtOut"
-        key, value = (b"\xfb", bytes(4)) if kind == "Psbt" else ch.pick(_FALSY_IN if kind == "PsbtIn" else _FALSY_OUT, "falsy.pair")
-        if any(k[:1] == key for k, _ in maps[i]):
+        key, value = ch.pick(table[kind], "edit.pair")
+        if any(k[:1] == key[:1] for k, _ in maps[i]):
             continue
         edited = [m + [(key, value)] if k == i else m for k, m in enumerate(maps)]
-        out.append(("falsy-pair", psbtmap.assemble(edited, magic=whole)))
+        out.append((fault, psbtmap.assemble(edited, magic=whole)))
     return out
 
 
@@ -525,6 +551,7 @@ def _receive(ctx: Ctx, j: Judge, data: bytes, boundaries: list[int], fault: str,
         if have < max(want, 1) and not feed.remaining():
             if have:
                 ctx.log("closed-mid-message", f"have={have}", actor="receiver")
+                ctx.probe("closed-mid-message")
             break  # the peer is done: nothing left, or less than was asked for
         buffered = stream.getvalue()
         ok, msg = j.call(site, lambda: Message.parse(stream))
@@ -538,12 +565,12 @@ def _receive(ctx: Ctx, j: Judge, data: bytes, boundaries: list[int], fault: str,
             if not eager:
                 for prop, inv in ((P5, "missing-completes"), (P19, "no-livelock")):
                     j.check(prop, inv, waits <= 2, f"asked {waits} times for one message although `missing` octets were delivered each time", site)
-            ctx.state(f"incomplete:{'header' if have < pg.HEADER_SIZE else 'payload'}")
+            ctx.probe(f"incomplete:{'header' if have < pg.HEADER_SIZE else 'payload'}{':eager' if eager else ''}")
             want = have + (1 if eager else max(msg.missing, 1))
             continue
         if not ok:
             ctx.log("refused", type(msg).__name__, actor="receiver")
-            ctx.state("refused-finally")
+            ctx.probe("refused-finally:" + fault)
             break
         end = stream.tell()
         on_wire = buffered[start:end]
@@ -552,7 +579,7 @@ def _receive(ctx: Ctx, j: Judge, data: bytes, boundaries: list[int], fault: str,
         for prop in (P5, P19):
             j.check(prop, "refused-or-canonical", lambda: msg.serialize() == on_wire, lambda: f"accepted {on_wire.hex()[:120]}", site)
         got.append(msg)
-        ctx.log("message", msg.command, _tag(msg.payload), actor="receiver")
+        ctx.log("message:" + (msg.command if msg.command in pg.BY_COMMAND else "?"), msg.command, _tag(msg.payload), actor="receiver")
         waits = want = 0
     return got
 
@@ -565,7 +592,7 @@ def _dispatch(ctx: Ctx, j: Judge, msg: Message, fault: str) -> Any:
     codec = pg.CODECS[cls]
     cv = bool(ctx.ch.draw(2, "dispatch.cv"))
     obj = _accept(ctx, j, codec, msg.payload, cv, fault, None)
-    if codec.stream and fault != "valid":
+    if codec.stream:
         _accept(ctx, j, codec, msg.payload, cv, fault, b"\x00\x01")
     if obj is not None and cls.__name__ == "TxPayload":
         _consume(ctx, j, go.CODECS["Tx"], obj.tx, cv, fault)
@@ -600,7 +627,7 @@ def _frame(ctx: Ctx, j: Judge) -> None:
             continue
         j.check(P5, "envelope-equals-writer", octets == pg.envelope(magic, command, payload), lambda: f"{octets[:24].hex()} for {command!r}", "Message.serialize/valid")
         sent.append(Sent(message, octets, built))
-        ctx.log("send", command, _tag(payload), actor="sender")
+        ctx.log("send:" + (command if built else "?"), command, _tag(payload), actor="sender")
     if not sent:
         raise RunAborted("every drawn message was over the size bound")
     wire = b"".join(s.octets for s in sent)
@@ -629,17 +656,17 @@ def _frame(ctx: Ctx, j: Judge) -> None:
             stream = io.BytesIO(lead + wire[starts[i]:starts[i] + cut])
             stream.seek(len(lead))
             site = "Message.parse/segment-walk"
-            try:
-                msg = Message.parse(stream)
-            except IncompleteMessageError as e:
-                expected = pg.HEADER_SIZE - cut if cut < pg.HEADER_SIZE else whole - cut
-                j.check(P5, "missing-exact", cut < whole and e.missing == expected, lambda: f"{cut} of {whole} octets: missing={e.missing}, expected {expected}", site)
-                j.check(P5, "rewound-on-incomplete", stream.tell() == len(lead), f"stream left at {stream.tell() - len(lead)} after {cut} of {whole} octets", site)
-                j.check(P19, "no-livelock", e.missing > 0, f"missing={e.missing}", site)
-            else:
+            ok, msg = j.call(site, lambda: Message.parse(stream))
+            if ok:
                 for prop, inv in ((P5, "position-after-message"), (P19, "no-over-read")):
                     j.check(prop, inv, cut >= whole and stream.tell() == len(lead) + whole, lambda: f"{cut} octets of a message of {whole}: accepted, stream left at {stream.tell() - len(lead)}", site)
                 j.check(P5, "delivered-exactly-once-in-order", msg == s.message, f"message {i} read back differently", site)
+            else:
+                expected = pg.HEADER_SIZE - cut if cut < pg.HEADER_SIZE else whole - cut
+                missing = getattr(msg, "missing", None)  # any other refusal of sound octets is not "incomplete"
+                j.check(P5, "missing-exact", cut < whole and missing == expected, lambda: f"{cut} of {whole} octets: {msg!r}, expected missing={expected}", site)
+                j.check(P5, "rewound-on-incomplete", stream.tell() == len(lead), f"stream left at {stream.tell() - len(lead)} after {cut} of {whole} octets", site)
+                j.check(P19, "no-livelock", missing is None or missing > 0, f"missing={missing}", site)
             ctx.state(f"segment:{'<' if cut < pg.HEADER_SIZE else '=' if cut == pg.HEADER_SIZE else 'payload' if cut < whole else 'whole' if cut == whole else 'beyond'}")
     if not faults:
         return
